@@ -26,6 +26,51 @@ pub struct Obs {
     pub offset: f64,
     pub sample_panicked: bool,
     pub sampled: bool,
+    pub sample_hung: bool,
+}
+
+/// set once a sampling run did not come back: no further watchdog runs are started (each hung
+/// thread keeps a core busy until the process exits)
+static HUNG_ONCE: std::sync::atomic::AtomicBool = std::sync::atomic::AtomicBool::new(false);
+
+/// The accepted interaction next to constant single-site terms on every variable, so that cluster
+/// updates run whenever the interaction is spin-flip symmetric; under a watchdog, because "can be
+/// sampled" also means that the updates come back.  Returns (panicked, hung).
+fn sample_in_company(c: &Case, seed: u64) -> (bool, bool) {
+    if HUNG_ONCE.load(std::sync::atomic::Ordering::SeqCst) {
+        return (false, false);
+    }
+    let c = c.clone();
+    let (tx, rx) = std::sync::mpsc::channel();
+    std::thread::spawn(move || {
+        let r = catch_unwind(AssertUnwindSafe(|| {
+            let mut q = Q::new_with_state(NVARS, TapeRng::new(seed ^ 0xC0), vec![false; NVARS], false);
+            for v in 0..NVARS {
+                q.make_interaction(vec![0.5; 4], vec![v]).unwrap();
+            }
+            let r = match c.kind {
+                0 => q.make_interaction(c.mat.clone(), c.vars.clone()),
+                1 => q.make_interaction_and_offset(c.mat.clone(), c.vars.clone()),
+                2 => q.make_diagonal_interaction(c.mat.clone(), c.vars.clone()),
+                _ => q.make_diagonal_interaction_and_offset(c.mat.clone(), c.vars.clone()),
+            };
+            if r.is_ok() {
+                for step in 0..16 {
+                    q.set_do_loop_updates(step % 4 == 3);
+                    q.set_do_heatbath(step % 3 == 2);
+                    q.timestep(0.75);
+                }
+            }
+        }));
+        let _ = tx.send(r.is_err());
+    });
+    match rx.recv_timeout(std::time::Duration::from_secs(20)) {
+        Ok(panicked) => (panicked, false),
+        Err(_) => {
+            HUNG_ONCE.store(true, std::sync::atomic::Ordering::SeqCst);
+            (false, true)
+        }
+    }
 }
 
 pub const NVARS: usize = 5;
@@ -45,6 +90,7 @@ pub fn observe(c: &Case, seed: u64) -> Obs {
         offset: 0.0,
         sample_panicked: false,
         sampled: false,
+        sample_hung: false,
     };
     let state = vec![false; NVARS];
     let mut q = Q::new_with_state(NVARS, TapeRng::new(seed), state, false);
@@ -103,6 +149,11 @@ pub fn observe(c: &Case, seed: u64) -> Obs {
         }
     }));
     o.sample_panicked = r.is_err();
+    if !o.sample_panicked {
+        let (p, h) = sample_in_company(c, seed);
+        o.sample_panicked = p;
+        o.sample_hung = h;
+    }
     o
 }
 
@@ -142,6 +193,9 @@ pub fn oracle(c: &Case, o: &Obs) -> Option<String> {
     }
     if o.sample_panicked {
         return Some("sampling an accepted interaction panicked".into());
+    }
+    if o.sample_hung {
+        return Some("sampling an accepted interaction (next to constant single-site terms, cluster updates on) did not terminate within 20 s".into());
     }
     if (o.offset + min).abs() > 1e-12 {
         return Some(format!("recorded offset {} but minimum was {}", o.offset, min));
